@@ -387,6 +387,13 @@ func c03Check(c c03Case) *vResult {
 		if va > uint64(t1.Add(slack).Unix()) {
 			res.violate("starts-in-future:ssh", "ValidAfter=%d is after now=%d (dur=%v)", va, t1.Unix(), strp(durText))
 		}
+		// the requested duration, exactly: the server read its clock no later
+		// than t1, so nothing it signed for a positive duration d may end after
+		// t1 + d (certificate times are whole seconds; no slack is needed for
+		// this clause because no reconstructed credential time enters it)
+		if durOK && durParsed > 0 && vb < 1<<62 && time.Unix(int64(vb), 0).After(t1.Add(durParsed)) {
+			res.violate("exceeds-requested-duration:ssh", "ValidBefore=%d is %v after now+requested (dur=%v, response complete at %v)", vb, time.Unix(int64(vb), 0).Sub(t1.Add(durParsed)), strp(durText), t1.Format("15:04:05.000"))
+		}
 		if vb > uint64(bound.Unix()) {
 			res.violate("exceeds-bound:ssh", "ValidBefore=%d exceeds bound=%d (now=%d dur=%v age=%ds cred=%s)", vb, bound.Unix(), t1.Unix(), strp(durText), c.AgeSec, c.Cred)
 		}
@@ -403,6 +410,9 @@ func c03Check(c c03Case) *vResult {
 	res.NonTrivial = c.Dur.Kind != "absent" || c.AgeSec > 0 || !userPath
 	if cert.NotBefore.After(t1.Add(slack)) {
 		res.violate("starts-in-future:"+c.Path, "NotBefore=%v is after now=%v", cert.NotBefore, t1)
+	}
+	if userPath && durOK && durParsed > 0 && cert.NotAfter.After(t1.Add(durParsed)) {
+		res.violate("exceeds-requested-duration:"+c.Path, "NotAfter=%v is %v after now+requested (dur=%v)", cert.NotAfter.UTC(), cert.NotAfter.Sub(t1.Add(durParsed)), strp(durText))
 	}
 	if cert.NotAfter.After(bound) {
 		res.violate("exceeds-bound:"+c.Path, "NotAfter=%v exceeds bound=%v (dur=%v age=%ds cred=%s)", cert.NotAfter.UTC(), bound.UTC(), strp(durText), c.AgeSec, c.Cred)
